@@ -153,6 +153,9 @@ def check_clean(ctx):
     for o in main:
         enc = Enc("$data")
         res = {k: enc.value(o.value, k) for k in CLASSES}
+        unknown = [k for k in CLASSES if res[k] == "UNKNOWN"]
+        if unknown:
+            raise AnalysisError("%s: the encoding interpreter cannot follow what happens to %s values (%s)" % (site, "/".join(unknown), str(o.value)[:160]))
         for k in CLASSES:
             want = "ORD" if k == "ORD" else "NAN"
             ctx.ob("C04.2", site, res[k] == want, "encoding class %s ends as %s" % (k, want), loc=prog.loc(m, o.node),
